@@ -1140,14 +1140,12 @@ class Executor:
         after = sysm.project(endpoint)
         actual['state_same'] = after == before
         self.state_cache[endpoint] = after
-        if endpoint == 'provider':
-            self.state_cache.pop('consumer', None)   # provider activity may reach the consumer
+        if endpoint == 'provider' and (actual['handled'] or not actual['state_same']):
+            self.state_cache.pop('consumer', None)   # notifications may have reached the consumer
         if not actual['state_same']:
             sysm.accepted_mutations += 1
-            self.state_cache.pop('consumer', None)
-            self.state_cache.pop('provider', None)
         accepted = actual['body'] == 'proper' and 200 <= actual['status'] < 300
-        if (accepted and tpl.target in DESTRUCTIVE) or sysm.accepted_mutations >= 150 or actual['spin']:
+        if (accepted and tpl.target in DESTRUCTIVE) or sysm.accepted_mutations >= 150:
             self.dirty_rebuild()
         return actual
 
@@ -1158,7 +1156,7 @@ class Executor:
     def baseline(self, templates: dict):
         """Run every valid template once through do_post and fix what the proper response looks like."""
         self.templates = templates
-        for tpl in templates.values():
+        for tpl in sorted(templates.values(), key=lambda t: t.target in DESTRUCTIVE):
             if tpl.method == 'GET':
                 conv = self.sysm.converters[tpl.endpoint]
                 headers = http.client.HTTPMessage()
